@@ -19,6 +19,10 @@ structure Fld where
   sizes : List Nat := []
   cells : Array Rat := #[]
   finite : Bool := true
+  synth : Bool := false      -- large synthetic field (`G` line): the word at flat position k is `synthVal k`, nothing is stored
+
+/-- contents of a synthetic field: small integers (exact in every precision), a fixed function of the flat word position -/
+def synthVal (k : Nat) : Rat := (((k * 2654435761) % 4294967296) % 1021 : Nat) - 510
 
 def hexs (xs : List String) : Option (List Nat) := xs.mapM (fun s => (String.toNat? s))
 def splitBar (xs : List String) : List (List String) :=
@@ -82,7 +86,9 @@ def linCheck (f : Fld) (cprec : Nat) (coord impl : List Nat) (idx : Option (List
   let mut bad := false
   let mut detail := ""
   for q in List.range f.M do
-    let v : List Bool → Rat := fun bs => f.cells.getD (neighbourIdx f is bs * f.M + q) 0
+    let v : List Bool → Rat := fun bs =>
+      let k := neighbourIdx f is bs * f.M + q
+      if f.synth then synthVal k else f.cells.getD k 0
     let exact := nlin fr v
     let code := match fr with
       | [a] => lin1 a v
@@ -156,6 +162,12 @@ partial def loop (h : IO.FS.Stream) (out : IO.FS.Stream) (f : Fld) : IO Unit := 
       let rs := decd.map (fun d => match d with | .fin r => r | _ => 0)
       out.putStrLn s!"set {cells.length / (if m = 0 then 1 else m)}"
       loop h out { vprec := vp, M := m, clamp := cl != 0, sizes := sz, cells := rs.toArray, finite := fin }
+    | _, _, _, _ => out.putStrLn "bad-op"; loop h out f
+  | "G" :: vp :: m :: cl :: rest =>
+    match vp.toNat?, m.toNat?, cl.toNat?, hexs rest with
+    | some vp, some m, some cl, some sz =>
+      out.putStrLn s!"set {sz.foldl (· * ·) 1}"
+      loop h out { vprec := vp, M := m, clamp := cl != 0, sizes := sz, cells := #[], finite := true, synth := true }
     | _, _, _, _ => out.putStrLn "bad-op"; loop h out f
   | "L" :: cp :: rest =>
     match cp.toNat?, (splitBar rest).map hexs with
